@@ -49,6 +49,9 @@ def guard_source(F, body, g):
 
 
 def r1(F, R):
+    """Trip condition, on the one-turn table of the completion receive loop (completions.py) — the loop may live in
+    EXECUTE or in a private helper EXECUTE calls."""
+    from . import completions as CP
     ex = roles.execute(F)
     S = slot_local(ex)
     brk = [(s, st) for s, k, st in slot_writes(ex, S) if k == "break"]
@@ -56,44 +59,61 @@ def r1(F, R):
     if len(brk) != 1:
         return
     s_b = brk[0][0]
-    ff = bool_param_upvar(F, ex)
-    conds = {}
-    recv_local = None
-    # conditions *on the completion message*: guards evaluated after the message was received (inside the drain loop);
-    # whatever guards the drain loop as a whole is loop structure and is covered by `completions-are-examined` below
-    recv_sites = [s for s, t in ex.calls(lambda t: callee_is(t, r"UnboundedReceiver.*::try_next$", r"try_recv$"))]
-    for g in A.guards_of(ex, s_b):
-        d = g.cond_def()
-        if d and d[0] == "discr":
-            continue  # the `while let Ok(Some(msg))` destructuring
-        if recv_sites and not getattr(g, "derived", False) and not any(ex.dominates(rs_, Site(ex, g.bb, "T")) for rs_ in recv_sites):
-            continue
-        src = guard_source(F, ex, g)
-        pol = g.polarity()
-        if src[0] == "upvar" and src[1] == ff:
-            conds["fail_fast"] = pol
-        elif src[0] == "tuple":
-            conds[f"msg.{src[1]}"] = pol
-            recv_local = src[2]["l"]
+    C = CP.table(F)
+    want = {"ff": True, "m3": True, "m4": False}
+    bad = None
+    places = set()
+    for r in C.msg_rows:
+        at = C.atoms(r)
+        full = all(at.get(k) is v for k, v in want.items())
+        neg = any(k in at and at[k] is not v for k, v in want.items())
+        places |= {e[1] for _, e in r["trip"]}
+        if full and not neg:
+            if not r["trip"]:
+                bad = bad or "a final failure under fail-fast does not trip it on some path (an extra condition)"
+        elif neg:
+            if r["trip"]:
+                bad = bad or f"fail-fast trips although {sorted((k, v) for k, v in at.items() if want[k] is not v)}"
         else:
-            conds[f"other:{src[1]}"] = pol
-    want = {"fail_fast": True, "msg.3": True, "msg.4": False}
-    R.check(conds == want, "trip-condition", s_b, "Break ⇐ fail_fast ∧ failed ∧ ¬retried",
-            f"fail-fast trips under {conds}; expected exactly {want} (a retried failure must not trip it, a final one must)")
+            bad = bad or f"a path decides without examining fail_fast / failed / retried of the message (knows only {at})"
+    if bad is None and len(places) != 1:
+        bad = f"{len(places)} trip variables"
+    linked = True
+    if bad is None:
+        pl = next(iter(places))
+        if C.in_execute:
+            linked = pl == ("L", 0, S)
+            if not linked:
+                bad = "the Break is not written to the slot counter"
+        else:
+            # helper form: the flag is a bool local, false before the loop, returned; EXECUTE breaks iff the helper says so
+            hb = C.body
+            n = pl[2] if pl[0] == "L" else None
+            defs = hb.defs.get(n, []) if n is not None else []
+            vals = [const_int(p_["rv"]["op"]) if k_ == "assign" and p_["rv"]["k"] == "use" else None for s_, k_, p_ in defs]
+            loop = A.natural_loop(hb, C.site.bb)
+            init_outside = [s_ for (s_, k_, p_), v in zip(defs, vals) if v == 0 and s_.bb not in loop]
+            rets = [(s_, p_) for s_, k_, p_ in hb.defs.get(0, []) if k_ == "assign"]
+            ret_is_flag = len(rets) == 1 and rets[0][1]["rv"]["k"] == "use" and op_local(rets[0][1]["rv"]["op"]) is not None and \
+                A.canon_place(hb, {"l": op_local(rets[0][1]["rv"]["op"]), "p": []})["l"] == n
+            gs = [g for g in A.guards_of(ex, s_b) if not ((g.cond_def() or [None])[0] == "discr")]
+            from_helper = bool(gs) and all(g.polarity() is True and g.discr_local is not None and
+                                           C.ex_site in A.slice_back(ex, start_locals=[g.discr_local], stop_calls=[r"Future::poll$"]).sites for g in gs)
+            linked = n is not None and None not in vals and set(vals) == {0, 1} and len(init_outside) == 1 and ret_is_flag and from_helper
+            if not linked:
+                bad = "the helper's flag is not (false before the loop, set only by the trip, returned) or EXECUTE does not break exactly when it is true"
+    R.check(bad is None, "trip-condition", s_b, "Break ⇐ fail_fast ∧ failed ∧ ¬retried",
+            f"fail-fast trip condition: {bad}; expected exactly fail_fast ∧ message.3 ∧ ¬message.4 (a retried failure must not trip it, a final one must)")
     # after an in-flight completion was awaited, the drain loop is entered before the next scheduling round
     infl = [aw for aw in A.awaits(ex) if re.search(r"FuturesUnordered<", aw.fut_type)]
     aw_get0, get0 = role_get(F)
-    okx = len(infl) == 1 and len(recv_sites) == 1
+    okx = len(infl) == 1
     if okx:
         ready = Site(ex, infl[0].ready_bb, 0)
-        okx = ex.site_reaches(ready, recv_sites[0]) and not ex.site_reaches(ready, aw_get0.poll_site, stop=[recv_sites[0]])
-    R.check(okx, "completions-are-examined", recv_sites[0] if recv_sites else ex, "every completion is followed by the message drain loop",
+        okx = ex.site_reaches(ready, C.ex_site) and not ex.site_reaches(ready, aw_get0.poll_site, stop=[C.ex_site])
+    R.check(okx, "completions-are-examined", C.ex_site, "every completion is followed by the message drain loop",
             "after a completion the scheduler can start the next round without examining the completion messages (fail-fast would not trip)")
-    # the message comes from the finished channel (try_next)
-    if recv_local is not None:
-        sd = ex.single_def(recv_local)
-        R.check(bool(sd and sd[1] == "call" and callee_is(sd[2], r"UnboundedReceiver.*::try_next$", r"try_recv$")), "trip-on-completion-message", s_b,
-                "conditions read the completion message", "the trip condition does not read the completion message")
+    R.ok("trip-on-completion-message", s_b, "conditions read the message received by try_next (table construction)")
     # producer side
     rs = roles.run_scenario(F)
     s_no, t_no, no_fn, s_send, t_send = c05.notify_call(F, rs)
@@ -118,20 +138,16 @@ def r1(F, R):
     if not ok_p:
         R.violation("producer/message-shape", s_send, "completion message is not a 5-tuple built from the notification's parameters")
     # bracket bookkeeping receives component 4
-    n = 0
-    for nb in F.nested(ex):
-      for s, t in nb.calls():
-        cb = F.callee_body(t)
-        if cb is None or not cb.impl or cb.impl.get("self_adt") != "runner::basic::FinishedRulesAndFeatures":
-            continue
-        bools = [i for i, a in enumerate(t["args"]) if op_local(a) is not None and nb.locals[op_local(a)] == "bool"]
-        for i in bools:
-            _b, cp = A.canon_place_deep(F, nb, {"l": op_local(t["args"][i]), "p": []})
-            fs = place_fields(cp)
-            n += 1
-            R.check(bool(fs) and fs[-1] == ("{tuple}", "4"), f"brackets-get-retried/{cb.short.rsplit('::', 1)[-1]}", s, "is_retried = message.4",
-                    f"{cb.short} receives {place_str(cp)} as is_retried instead of component 4")
-    R.check(n == 2, "brackets-get-retried/sites", ex, "", f"{n} bracket bookkeeping calls with a bool argument")
+    kinds = {}
+    for r in C.msg_rows:
+        for i, cb, e in r["bk"]:
+            bidx = [j for j, ty in enumerate(cb.locals[1:cb.arg_count + 1]) if ty == "bool"]
+            nm = cb.short.rsplit("::", 1)[-1]
+            ok = len(bidx) == 1 and bidx[0] < len(e[2]) and CP._strip(e[2][bidx[0]]) == C.component(r, 4)
+            kinds[nm] = kinds.get(nm, True) and ok
+    for nm, ok in sorted(kinds.items()):
+        R.check(ok, f"brackets-get-retried/{nm}", C.body, "is_retried = message.4", f"{nm} does not receive component 4 of the completion message as is_retried")
+    R.check(len(kinds) == 2, "brackets-get-retried/sites", C.body, "", f"{len(kinds)} bracket bookkeeping calls with a bool argument")
     R.floor(8)
 
 
